@@ -4,7 +4,9 @@ Engine E4 (mc.envfaults), deviation-bounded fault injection: for every configura
 AtomicSaver with exactly one (quick) / up to two (thorough) deviations from "every OS call succeeds" is run in a real
 scratch directory.  Deviations: an errno from the menu at os.open / chmod / stat / fsync / rename / link / unlink, at a
 raw write (also a short write) or raw close of the part file, and the environment action "another process creates the
-destination" just before any call.
+destination" just before any call.  Besides the flag product, extra_configs() adds argument shapes and initial states
+(part_file=, buffering=, relative destination, atomic_save(), destination = symlink / directory / hard-linked file, part
+file = dangling symlink or hard-linked by the body), explored with one deviation in the quick tier.
 """
 import errno
 import stat
@@ -58,6 +60,13 @@ class BodyError(Exception):
 
 BODY_EXC = {'BodyError': BodyError, 'SystemExit': SystemExit, 'KeyboardInterrupt': KeyboardInterrupt}
 REUSE_MODE = 0o611
+SNAP = 'snap'                   # sub-directory that receives the body's hard link to its part file
+DECOY = b'UNRELATED-FILE-WITH-THE-DEFAULT-PART-NAME\n'
+DIR_MODE = 0o751
+# A body that changes the working directory while the destination was given as a relative path: on the tree without
+# fixes/C05-relative-part-path.patch the part file is looked for relative to the *new* directory (rename fails with ENOENT
+# and the part file stays behind).  Switch on once that fix is applied.
+CHDIR_BODY = True
 
 
 def body_plan(kind):
@@ -79,6 +88,14 @@ def body_plan(kind):
         return [('write', OLD.decode('ascii'))]
     if kind == 'same_as_other':     # ... or what another process writes to the destination meanwhile
         return [('write', OTHER.decode('ascii'))]
+    if kind == 'small_linked':      # a snapshot/backup tool (or the body) hard-links the part file in progress
+        return [('write', 'new-content\n'), ('hardlink',)]
+    if kind == 'raises_linked':
+        return [('write', 'partial\n'), ('hardlink',), ('raise',)]
+    if kind == 'small_chdir':       # the body changes the working directory
+        return [('write', 'new-content\n'), ('chdir',)]
+    if kind == 'raises_chdir':
+        return [('write', 'partial\n'), ('chdir',), ('raise',)]
     if kind == 'closes_raises':     # the body closes the part file itself (nested `with f:`), then fails
         return [('write', 'partial\n'), ('close',), ('raise',)]
     raise AssertionError(kind)
@@ -167,11 +184,91 @@ def configs(tier):
     return out
 
 
+def extra_configs():
+    """Argument shapes and initial states beyond the flag product (single-deviation pass in the quick tier)."""
+    out = []
+    base = {'overwrite': True, 'overwrite_part': False, 'rm_part_on_exc': True, 'text_mode': False, 'file_perms': None,
+            'umask': 0o022, 'dest_present': True, 'part_present': False, 'body': 'small', 'extra': True}
+    # part_file='name': the part file is the one the caller named; an unrelated file that carries the default part-file
+    # name is no part file of this save
+    for overwrite in (True, False):
+        for rm_part in (True, False):
+            for part, overwrite_part in ((False, False), (True, False), (True, True)):
+                for dest in (False, True):
+                    for body in ('small', 'large', 'raises'):
+                        for decoy in (True, False):
+                            out.append(dict(base, part_name='custom.tmp', decoy=decoy, overwrite=overwrite,
+                                            rm_part_on_exc=rm_part, part_present=part, overwrite_part=overwrite_part,
+                                            dest_present=dest, body=body))
+    for name in ('.dest.txt.swp', 'dest.txt.part.part'):
+        for body in ('small', 'large', 'raises'):
+            for text in (False, True):
+                out.append(dict(base, part_name=name, decoy=True, body=body, text_mode=text))
+    # the part file in progress has a second hard link (snapshot tool, the body itself) while the save fails or is refused
+    for body in ('small_linked', 'raises_linked'):
+        for overwrite in (True, False):
+            for dest in (False, True):
+                for rm_part in (True, False):
+                    for text in (False, True):
+                        out.append(dict(base, body=body, overwrite=overwrite, dest_present=dest, rm_part_on_exc=rm_part,
+                                        text_mode=text))
+    # the destination is a symbolic link and is replaced (overwrite=True)
+    for kind in ('symlink_dangling', 'symlink_to_file'):
+        for perms in (None, 0o600):
+            for umask in (0o022, 0):
+                for body in ('small', 'large', 'raises'):
+                    out.append(dict(base, dest_kind=kind, file_perms=perms, umask=umask, body=body))
+    # the destination is a directory: the operating system itself reports the error at rename/link
+    for overwrite in (True, False):
+        for rm_part in (True, False):
+            for perms in (None, 0o600):
+                for body in ('small', 'raises'):
+                    out.append(dict(base, dest_kind='directory', overwrite=overwrite, rm_part_on_exc=rm_part,
+                                    file_perms=perms, body=body))
+    # the old file has a second name: its content is the "previous content" under that name, too
+    for body in ('small', 'large', 'raises'):
+        for text in (False, True):
+            out.append(dict(base, dest_hardlinked=True, body=body, text_mode=text))
+    out.append(dict(base, dest_hardlinked=True, overwrite=False))
+    # a pre-existing part file that is a dangling symbolic link
+    for overwrite_part in (False, True):
+        for rm_part in (True, False):
+            for body in ('small', 'raises'):
+                out.append(dict(base, part_present=True, part_kind='symlink_dangling', overwrite_part=overwrite_part,
+                                rm_part_on_exc=rm_part, body=body))
+    # destination path relative to the working directory
+    for name in (None, 'custom.tmp'):
+        for overwrite in (True, False):
+            for dest in (False, True):
+                for body in ('small', 'large', 'raises'):
+                    out.append(dict(base, relative=True, part_name=name, overwrite=overwrite, dest_present=dest, body=body))
+    if CHDIR_BODY:
+        for overwrite in (True, False):
+            for dest in (False, True):
+                for body in ('small_chdir', 'raises_chdir'):
+                    out.append(dict(base, relative=True, overwrite=overwrite, dest_present=dest, body=body))
+    # the function form atomic_save(dest, **kwargs)
+    for overwrite in (True, False):
+        for dest in (False, True):
+            for text in (False, True):
+                for body in ('small', 'raises'):
+                    out.append(dict(base, entry='atomic_save', overwrite=overwrite, dest_present=dest, text_mode=text,
+                                    body=body))
+    # buffering=: unbuffered (binary only), line-buffered (text only), a tiny buffer
+    for buffering, text in ((0, False), (1, True), (16, False), (16, True)):
+        for body in ('small', 'large', 'raises', 'large_raises'):
+            for dest in (False, True):
+                out.append(dict(base, buffering=buffering, text_mode=text, body=body, dest_present=dest))
+    return out
+
+
 class Scenario:
     def __init__(self, cfg, d):
         self.cfg, self.d = cfg, d
         self.dest = os.path.join(d, 'dest.txt')
-        self.part = self.dest + '.part'
+        self.part = os.path.join(d, cfg['part_name']) if cfg.get('part_name') else self.dest + '.part'
+        self.own = ('dest.txt', os.path.basename(self.part), SNAP)
+        self.dest_abs = self.dest
         self.plan = body_plan(cfg['body'])
         self.new = new_content(self.plan)
         self.body_raises = any(st[0] == 'raise' for st in self.plan)
@@ -185,7 +282,17 @@ class Scenario:
         os.makedirs(self.d)
         old = os.umask(0)
         try:
-            if self.cfg.get('dest_kind'):
+            if any(st[0] in ('hardlink', 'chdir') for st in self.plan):
+                os.mkdir(os.path.join(self.d, SNAP), 0o755)
+            if self.cfg.get('decoy'):       # an unrelated file that carries the *default* part-file name
+                with open(self.dest + '.part', 'wb') as f:
+                    f.write(DECOY)
+                os.chmod(self.dest + '.part', FOREIGN_MODE)
+            if self.cfg.get('dest_kind') == 'directory':
+                os.mkdir(self.dest, DIR_MODE)
+                with open(os.path.join(self.dest, 'inside'), 'wb') as f:
+                    f.write(OLD)
+            elif self.cfg.get('dest_kind'):
                 target = os.path.join(self.d, 'target-of-the-link')
                 if self.cfg['dest_kind'] == 'symlink_to_file':
                     with open(target, 'wb') as f:
@@ -196,7 +303,11 @@ class Scenario:
                 with open(self.dest, 'wb') as f:
                     f.write(OLD)
                 os.chmod(self.dest, self.cfg.get('old_mode', OLD_MODE))
-            if self.cfg['part_present']:
+                if self.cfg.get('dest_hardlinked'):     # the old file has a second name: it must keep its content
+                    os.link(self.dest, os.path.join(self.d, 'twin-of-dest'))
+            if self.cfg['part_present'] and self.cfg.get('part_kind') == 'symlink_dangling':
+                os.symlink('target-of-the-part-link', self.part)
+            elif self.cfg['part_present']:
                 with open(self.part, 'wb') as f:
                     f.write(FOREIGN)
                 os.chmod(self.part, FOREIGN_MODE)
@@ -229,7 +340,8 @@ class Scenario:
             if nm == 'open' and not (len(ev['args']) > 1 and ev['args'][1] & os.O_CREAT):
                 continue
             alts.append(('raise', en))
-        if nm == 'raw_write' and ev['len'] > 1:
+        # (a short write on an unbuffered raw file is reported to the body, which here ignores it: not offered)
+        if nm == 'raw_write' and ev['len'] > 1 and self.cfg.get('buffering') != 0:
             alts.append(('short', max(1, ev['len'] // 2)))
         if nm != 'checkpoint' and nm != 'fdopen' and not self.other_created and not os.path.lexists(self.dest):
             alts.append(('pre', self.other_process_creates_dest, 'another process creates the destination'))
@@ -248,12 +360,24 @@ class Scenario:
             if getattr(self, 'harness_umask', None) is None:
                 self.harness_umask = prev       # restored by restore_umask() once the execution has been judged
         f = None
+        cwd = None
         try:
             kw = {'text_mode': cfg['text_mode'], 'overwrite': cfg['overwrite'],
                   'overwrite_part': cfg['overwrite_part'], 'rm_part_on_exc': cfg['rm_part_on_exc']}
             if cfg['file_perms'] is not None:
                 kw['file_perms'] = cfg['file_perms']
-            saver = fileutils.AtomicSaver(self.dest, **kw)
+            if cfg.get('part_name'):
+                kw['part_file'] = cfg['part_name']
+            if cfg.get('buffering') is not None:
+                kw['buffering'] = cfg['buffering']
+            path = self.dest
+            if cfg.get('relative'):         # a destination given relative to the working directory
+                cwd = os.getcwd()
+                os.chdir(self.d)
+                self.dest_abs = os.path.join(os.getcwd(), 'dest.txt')
+                path = 'dest.txt'
+            make = fileutils.atomic_save if cfg.get('entry') == 'atomic_save' else fileutils.AtomicSaver
+            saver = make(path, **kw)
             if cfg.get('reuse'):
                 # first save through the same object, undisturbed and unobserved; then the destination's mode changes
                 env.closed = True
@@ -268,11 +392,13 @@ class Scenario:
                     os.chmod(self.dest, REUSE_MODE)
                 except Exception as e:      # only possible on a retry after a failed run (e.g. a part file was left)
                     self.before = (stat_of(self.dest), stat_of(self.part))
-                    self.others_before = sorted(n for n in os.listdir(self.d) if n not in ('dest.txt', 'dest.txt.part'))
+                    self.replaced0 = followed_mode(self.dest)
+                    self.others_before = others_of(self)
                     return e
                 env.closed = False
             self.before = (stat_of(self.dest), stat_of(self.part))
-            self.others_before = sorted(n for n in os.listdir(self.d) if n not in ('dest.txt', 'dest.txt.part'))
+            self.replaced0 = followed_mode(self.dest)
+            self.others_before = others_of(self)
             try:
                 if cfg.get('manual'):
                     import sys as _sys
@@ -296,6 +422,14 @@ class Scenario:
                             f.write(st[1] if cfg['text_mode'] else st[1].encode('utf-8'))
                         elif st[0] == 'close':
                             f.close()
+                        elif st[0] == 'chdir':
+                            os.chdir(os.path.join(self.d, SNAP))
+                        elif st[0] == 'hardlink':
+                            f.flush()
+                            snap = os.path.join(self.d, SNAP, 'link-to-part')
+                            if os.path.lexists(snap):       # (the retry of a failed save takes a new snapshot)
+                                os.unlink(snap)
+                            os.link(self.part, snap)
                         elif st[0] == 'raise':
                             raise self.body_exc('body failed')
                 return None
@@ -306,6 +440,8 @@ class Scenario:
         finally:
             fileutils.os = saved
             env.closed = True
+            if cwd is not None:
+                os.chdir(cwd)
             try:
                 if f is not None and not f.closed:
                     f.close()      # harness hygiene only (fd leak), after the observation point
@@ -319,11 +455,25 @@ def restore_umask(sc):
         sc.harness_umask = None
 
 
+def others_of(sc):
+    return sorted((n, stat_of(os.path.join(sc.d, n))) for n in os.listdir(sc.d) if n not in sc.own)
+
+
+def followed_mode(path):
+    """Permission bits of the file a path leads to (None: nothing there, or a dangling link)."""
+    try:
+        return stat.S_IMODE(os.stat(path).st_mode)
+    except OSError:
+        return None
+
+
 def stat_of(path):
     try:
         st = os.lstat(path)
     except OSError:
         return None
+    if stat.S_ISDIR(st.st_mode):
+        return (st.st_mode & 0o7777, b'directory: ' + ' '.join(sorted(os.listdir(path))).encode(), st.st_ino)
     if stat.S_ISLNK(st.st_mode):
         return (st.st_mode & 0o7777, b'symlink -> ' + os.readlink(path).encode(), st.st_ino)
     with open(path, 'rb') as f:
@@ -336,16 +486,21 @@ def judge(sc, env, exc, before, retry=True):
     cfg = sc.cfg
     out = []
     dest0, part0 = before
+    is_dir = cfg.get('dest_kind') == 'directory'    # a directory cannot be replaced by a file: the OS refuses
+    umask_default = 0o666 & ~cfg['umask']
+    # "the permissions of the file it replaces": a symbolic link has no permissions of its own (its mode bits are a
+    # constant placeholder), the file that was reachable under the destination's name is the one the link leads to
+    replaced0 = sc.replaced0
     dest1, part1 = stat_of(sc.dest), stat_of(sc.part)
     fired = [a for _, a in env.fired]
     log = env.log
     # did a publishing call succeed?
     published = any(ev['name'] in ('rename', 'replace', 'link') and not str(ev.get('result', '')).startswith('errno')
-                    and len(ev['args']) > 1 and ev['args'][1] == sc.dest for ev in log)
+                    and len(ev['args']) > 1 and ev['args'][1] in (sc.dest, sc.dest_abs) for ev in log)
     raised_faults = [a for a in fired if a[0] == 'raise']
     other = sc.other_created
     refused_expected = (not cfg['overwrite'] and (dest0 is not None or other)) or \
-                       (cfg['part_present'] and not cfg['overwrite_part'])
+                       (cfg['part_present'] and not cfg['overwrite_part']) or is_dir
     # expected destination when the save did not complete
     if other:
         keep = (OTHER_MODE, OTHER)
@@ -374,20 +529,20 @@ def judge(sc, env, exc, before, retry=True):
                 want = {cfg['file_perms']}
             elif any(a[0] == 'raise' and ev_name == 'stat' for (ev_name, a) in
                      [(env.points[i][0], a) for i, a in env.fired]):
-                want = {0o666 & ~cfg['umask'], dest0[0] if dest0 is not None else 0o666 & ~cfg['umask']}
+                want = {umask_default, replaced0 if replaced0 is not None else umask_default}
             elif other:
                 want = {OTHER_MODE, 0o666 & ~cfg['umask']}
-            elif dest0 is not None:
-                want = {dest0[0]}           # the mode of the file it replaces
+            elif replaced0 is not None:
+                want = {replaced0}          # the mode of the file it replaces
             else:
                 want = {0o666 & ~cfg['umask']}
             if dest1[0] not in want:
                 out.append(('permissions of the completed file', sorted(oct(w) for w in want), oct(dest1[0])))
         if part1 is not None:
             out.append(('part file left after a completed save', None, part1[1][:30]))
-        now = sorted(n for n in os.listdir(sc.d) if n not in ('dest.txt', 'dest.txt.part'))
-        if now != sc.others_before:
-            out.append(('other files of the directory changed', sc.others_before, now))
+        now = others_of(sc)
+        if [x[0] for x in now] != [x[0] for x in sc.others_before]:
+            out.append(('other files of the directory changed', [x[0] for x in sc.others_before], [x[0] for x in now]))
         return out
     # the caller saw an exception
     closes = any(st[0] == 'close' for st in sc.plan)
@@ -417,9 +572,14 @@ def judge(sc, env, exc, before, retry=True):
     if cfg['rm_part_on_exc'] and mine and published and not unlink_failed:
         out.append(('part file left behind after publication', 'no part file', part1[1][:30]))
     # nothing but the destination and the part file may appear or disappear in the directory
-    now = sorted(n for n in os.listdir(sc.d) if n not in ('dest.txt', 'dest.txt.part'))
-    if now != sc.others_before:
-        out.append(('other files of the directory changed', sc.others_before, now))
+    now = others_of(sc)
+    if [x[0] for x in now] != [x[0] for x in sc.others_before]:
+        out.append(('other files of the directory changed', [x[0] for x in sc.others_before], [x[0] for x in now]))
+    elif now != sc.others_before:
+        # ... nor may a save that did not complete alter them (the old file seen through a symbolic link or under its
+        # second hard-linked name, an unrelated file that carries the default part-file name)
+        diff = [x[0] for x, y in zip(sc.others_before, now) if x != y]
+        out.append(('other files of the directory altered by a save that did not complete', 'unchanged', diff))
     # the process umask is what "the umask default" of later saves refers to: a save must leave it as it found it
     cur = os.umask(0)
     os.umask(cur)
@@ -428,17 +588,17 @@ def judge(sc, env, exc, before, retry=True):
     # retry
     if retry and cfg['rm_part_on_exc'] and not unlink_failed and not published:
         blocked = (not cfg['overwrite'] and os.path.lexists(sc.dest)) or \
-                  (part0 is not None and not cfg['overwrite_part'])
+                  (part0 is not None and not cfg['overwrite_part']) or is_dir
         if not blocked and not sc.body_raises:
             env2 = envfaults.Env()
-            dprev = stat_of(sc.dest)
+            dprev = followed_mode(sc.dest)
             exc2 = sc.run(env2, set_umask=False)
             d2 = stat_of(sc.dest)
             if exc2 is not None or d2 is None or d2[1] != sc.new:
                 out.append(('immediate retry fails', 'retry succeeds', repr(exc2)))
             elif not cfg.get('reuse'):
                 want2 = {cfg['file_perms']} if cfg['file_perms'] is not None else \
-                    {dprev[0]} if dprev is not None else {0o666 & ~cfg['umask']}
+                    {dprev} if dprev is not None else {0o666 & ~cfg['umask']}
                 if d2[0] not in want2:
                     out.append(('permissions after the retry of a failed save', sorted(oct(w) for w in want2), oct(d2[0])))
     return out
@@ -509,6 +669,7 @@ def run(ctx):
     base = core.scratch_dir('c05')
     try:
         cfgs = configs(ctx.tier)
+        extra = extra_configs()
         # the umask only matters for the final mode: deeper deviation bounds use the default umask
         core_cfg = [c for c in cfgs if c['umask'] == 0o022 and not c['text_mode']]
         # the single-fault pass with every errno of WIDE at every call: the configurations that differ only in umask /
@@ -516,14 +677,16 @@ def run(ctx):
         wide_cfg = [dict(c, wide=True) for c in cfgs if c['umask'] == 0o022 and c['file_perms'] != 0o664]
         if ctx.quick():
             tasks = [(c, base, 1) for c in cfgs] + [(c, base, 2) for c in core_cfg if c['file_perms'] != 0o600] \
-                + [(c, base, 1) for c in wide_cfg]
+                + [(c, base, 1) for c in wide_cfg] + [(c, base, 1) for c in extra]
         else:
             tasks = [(c, base, 2) for c in cfgs] + [(c, base, 3) for c in core_cfg] \
-                + [(dict(c, wide=True), base, 1) for c in cfgs]
+                + [(dict(c, wide=True), base, 1) for c in cfgs] + [(c, base, 2) for c in extra] \
+                + [(dict(c, wide=True), base, 1) for c in extra]
         ctx.rng.shuffle(tasks)
         total = inputs.run_shards(ctx, run_config, tasks, part='fault injection', rule=None)
         cov = ctx.coverage
         cov['configurations'] = len(cfgs)
+        cov['extra_configurations'] = len(extra)
         cov['rule'] = ('one evaluation = one complete execution of a save under one sequence of environment answers; '
                        'non-trivial = at least one deviation (injected errno, short write, or another process creating '
                        'the destination) actually fired')
@@ -531,10 +694,21 @@ def run(ctx):
                                                                           for k, v in MENU.items()},
                          'errnos of the wide single-fault pass (each at every call)': [errno.errorcode[e] for e in WIDE],
                          'other traced calls': [errno.errorcode[e] for e in OTHER_CALLS]}
+        cov['bounds']['extra configurations (1 deviation quick, 2 + wide pass thorough)'] = (
+            "part_file='name' (3 names, with/without an unrelated file under the default part name); part file hard-linked "
+            'by the body before the save fails / is refused; destination = symbolic link (dangling, to a file) replaced with '
+            'overwrite=True; destination = directory; destination with a second hard link; pre-existing part file = '
+            'dangling symbolic link; destination path relative to the working directory; atomic_save() function form; '
+            'buffering 0 / 1 / 16')
         cov['exhaustive'] = True
         ctx.assumptions += ['faults are injected only at the steps the statement lists (fdopen/fcntl excluded)',
                             'a fault after a successful publishing call counts as a completed save',
-                            'no-part-left is not demanded when the injector failed the unlink that would remove it']
+                            'no-part-left is not demanded when the injector failed the unlink that would remove it',
+                            '"the permissions of the file it replaces" for a destination that is a symbolic link = those '
+                            'of the file the link leads to (a link has no permission bits of its own); a dangling link '
+                            'replaces no file: umask default',
+                            'a save that did not complete must leave every other entry of the directory as it was (name, '
+                            'mode, content, inode); after a completed save only the set of names is compared']
     finally:
         shutil.rmtree(base, ignore_errors=True)
 
